@@ -756,7 +756,11 @@ func (x *g) msg0() *Node {
 		n.Body = []*Node{pl}
 		return n
 	}
-	n.Body = x.msgBody(1 + x.pick(5))
+	parts := 1 + x.pick(5)
+	if x.o.MsgHeavy && x.chance(0.15) {
+		parts = 10 + x.pick(5) // a long message: more placeholders than any small-case shortcut covers
+	}
+	n.Body = x.msgBody(parts)
 	return n
 }
 
